@@ -55,6 +55,10 @@ ASSUMPTIONS = [
 ]
 CHUNK = 1
 WORKERS = 8
+# A failing comparison is re-executed inside run() (both sides, twice) before it is classified, which separates a deterministic
+# violation from non-deterministic painting (sig thread-count:tsc-race).  core's own re-run of the whole case would label a rare
+# race "did not reproduce"; it is therefore switched off.
+NO_REPRO = True
 ENVS = {'f8': {}}      # float64-position cases get their own worker pool: each pool compiles only its own numba specialisations
 
 TOL = {'float32': 3e-5, 'float64': 1e-11}
@@ -234,8 +238,7 @@ def run(c):
     def tolerant(r, base, cls, desc, fl):
         cnt['tol_comparisons'] += 1
         d, col = dev(r, base)
-        tol = TOL[str(base.cols['power'].dtype)] if str(base.cols['power'].dtype) in TOL else TOL['float32']
-        if d <= tol:
+        if d <= TOL.get(str(base.cols['power'].dtype), TOL['float32']):
             floors[fl] = max(floors.get(fl, 0.0), d)
             return True, d, col
         return False, d, col
@@ -245,49 +248,86 @@ def run(c):
         i = np.unravel_index(int(np.argmax(np.abs(a.astype(np.float64) - b.astype(np.float64)))), a.shape)
         return f'{col}{list(map(int, i))}: got {a[i]!r}, base {b[i]!r}, max|base {col}|={np.abs(b).max()!r}'
 
+    tol = TOL['float32']
+
     for sname in c['sets']:
         ps = S.build(sname, g, h, fdt)
         desc0 = f'set {sname} (N={ps.n}, Box={g * h:g})'
         pos0, w0 = ps.pos(), ps.w()
-        base = call(c, pos0.copy(), None if w0 is None else w0.copy(), 1)
+
+        def mkbase():
+            return pos0.copy(), (None if w0 is None else w0.copy()), None, None
+
+        base = call(c, *mkbase()[:2], 1)
         cnt['calls_base'] += 1
         outd.add(str(base.cols['power'].dtype))
+        tol = TOL.get(str(base.cols['power'].dtype), TOL['float32'])
         exact(base, desc0 + ' base nthread=1', 1)
         if base.meta.get('N_pos') != ps.n:
             problem('exact:meta', f"{desc0}: meta N_pos={base.meta.get('N_pos')}")
         nontriv = bool(np.abs(base.cols['power']).max() > 0)
         ftag = f"{c['dt']}_h{h:g}"
+        B = [base]            # replaced when the first base call turns out to be the outlier of a non-deterministic paint
 
-        def one(cls, param, pos, w, nthread=1, pos2=None, w2=None, differs=True, floor=None):
-            """one transformed call compared with the base of this particle set"""
-            r = call(c, pos, w, nthread, pos2, w2)
+        def race(where, nth, ra, rb, d, col, note=''):
+            what = 'thread-count:tsc-race' if c['paste'] == 'TSC' else f'identical-calls-disagree:{sigtail}'
+            problem(what, f'{desc0}, positions(cells)={ps.cells_str()} weights={None if w0 is None else w0.tolist()}: IDENTICAL repeated calls '
+                          f'({where}, nthread={nth}) disagree in {col} by {d:.3g} of max (tolerance {tol:g}); '
+                          f'{show(ra, rb, col) if np.isfinite(d) else "non-finite values"}{note}')
+
+        def one(cls, param, mk, nthread=1, differs=True):
+            """one transformed call compared with the base of this particle set -> (result, 'ok' | 'fail' | 'race', dev, column).
+            A failing comparison is believed only after both sides have been re-executed twice with identical inputs: if a
+            re-execution disagrees with its own first execution the code is non-deterministic and that is what is reported."""
+            pa, wa, p2, w2 = mk()
+            r = call(c, pa, wa, nthread, p2, w2)
             d = f'{desc0} {cls}:{param}'
             exact(r, d, nthread)
-            ok, dv, col = tolerant(r, base, cls, d, f'floor_{floor or cls}_{ftag}')
-            if ok and differs and all(np.array_equal(r.cols[n], base.cols[n]) for n in TOL_COLS if n in base.cols):
-                cnt['bitwise_identical_transforms'] += 1
+            ok, dv, col = tolerant(r, B[0], cls, d, f'floor_{cls}_{ftag}')
             if nontriv and differs:
                 nt.append(f'{key}|{sname}|{cls}:{param}')
-            return r, ok, dv, col
+            if ok:
+                if differs and all(np.array_equal(r.cols[n], B[0].cols[n]) for n in TOL_COLS if n in B[0].cols):
+                    cnt['bitwise_identical_transforms'] += 1
+                return r, 'ok', dv, col
+            rb = [call(c, *mkbase()[:2], 1) for _ in range(2)]
+            rt = []
+            for _ in range(2):
+                pa, wa, p2, w2 = mk()
+                rt.append(call(c, pa, wa, nthread, p2, w2))
+            cnt['calls_raceprobe'] += 4
+            db, cb = max((dev(x, B[0]) for x in rb), key=lambda t: t[0])
+            dt_, ct = max((dev(x, r) for x in rt), key=lambda t: t[0])
+            if db > tol or dt_ > tol:
+                if db > tol:
+                    race('the base call of this set', 1, rb[0] if dev(rb[0], B[0])[0] > tol else rb[1], B[0], db, cb,
+                         f'; found while checking {cls} {param}')
+                    if dev(rb[0], rb[1])[0] <= tol:
+                        B[0] = rb[0]      # the two re-executions agree: the first base call was the outlier
+                else:
+                    race(f'{cls} {param}', nthread, rt[0] if dev(rt[0], r)[0] > tol else rt[1], r, dt_, ct)
+                return r, 'race', dv, col
+            return r, 'fail', dv, col
 
-        def fail(cls, param, r, dv, col, extra=''):
+        def fail(cls, param, r, dv, col):
             problem(f'{cls}:{sigtail}:{col}',
                     f'{desc0}, positions(cells)={ps.cells_str()} weights={None if w0 is None else w0.tolist()}: {cls} {param} changes '
-                    f'{col} by {dv:.3g} of max (tolerance {TOL[str(base.cols["power"].dtype)]:g}); {show(r, base, col) if np.isfinite(dv) else "non-finite values"}{extra}')
+                    f'{col} by {dv:.3g} of max (tolerance {tol:g}); {show(r, B[0], col) if np.isfinite(dv) else "non-finite values"} '
+                    f'(both calls re-executed twice: deterministic)')
 
         # identical repeat (single thread): the two calls have the same inputs
-        r, ok, dv, col = one('repeat', 'n1', pos0.copy(), None if w0 is None else w0.copy(), 1, differs=False)
+        r, st, dv, col = one('repeat', 'n1', mkbase, 1, differs=False)
         cnt['calls_repeat'] += 1
-        if ok and dv == 0.0:
+        if st == 'ok' and dv == 0.0:
             cnt['bitwise_identical_repeats'] += 1
-        if not ok:
-            problem(f'identical-calls-disagree:{sigtail}:n1', f'{desc0}: two identical calls with nthread=1 differ in {col} by {dv:.3g} of max; {show(r, base, col) if np.isfinite(dv) else "non-finite"}')
+        if st == 'fail':
+            fail('repeat', 'second identical call (state left behind by the first?)', r, dv, col)
 
         # permutations (a generating set of the symmetric group)
         for pname, order in ps.perms():
-            r, ok, dv, col = one('perm', pname, pos0[order].copy(), None if w0 is None else w0[order].copy(), 1)
+            r, st, dv, col = one('perm', pname, lambda: (pos0[order].copy(), None if w0 is None else w0[order].copy(), None, None), 1)
             cnt['calls_perm'] += 1
-            if not ok:
+            if st == 'fail':
                 fail('perm', pname, r, dv, col)
 
         # translations by whole cells, periodic wrap
@@ -299,62 +339,48 @@ def run(c):
                 problem('harness-error:inexact-translation', f'{desc0}: translation {sh} not exactly representable')
                 continue
             differs = not np.array_equal(pt, pos0)
-            r, ok, dv, col = one('translate', 'x'.join(map(str, sh)), pt, None if w0 is None else w0.copy(), 1, differs=differs)
+            r, st, dv, col = one('translate', 'x'.join(map(str, sh)), lambda: (pt.copy(), None if w0 is None else w0.copy(), None, None), 1,
+                                 differs=differs)
             cnt['calls_translate'] += 1
-            if not ok:
+            if st == 'fail':
                 fail('translate', f'by {sh} cells', r, dv, col)
 
         # thread counts; each twice (identical calls must agree)
         for nth in THREADS:
-            r1, ok1, dv1, col1 = one('thread-count', f'n{nth}', pos0.copy(), None if w0 is None else w0.copy(), nth)
-            r2 = call(c, pos0.copy(), None if w0 is None else w0.copy(), nth)
+            r1, st, dv1, col1 = one('thread-count', f'n{nth}', mkbase, nth)
             cnt['calls_thread'] += 1
+            if st == 'fail':
+                fail('thread-count', f'nthread={nth} vs 1', r1, dv1, col1)
+            r2 = call(c, *mkbase()[:2], nth)
             cnt['calls_repeat'] += 1
             exact(r2, f'{desc0} repeat nthread={nth}', nth)
             okr, dvr, colr = tolerant(r2, r1, 'repeat', '', f'floor_repeat_{ftag}')
             if okr and dvr == 0.0:
                 cnt['bitwise_identical_repeats'] += 1
-            racy = not okr
-            if not ok1 and not racy:
-                # is the disagreement a property of the thread count, or do identical calls disagree among themselves?
-                for _ in range(4):
-                    r3 = call(c, pos0.copy(), None if w0 is None else w0.copy(), nth)
-                    cnt['calls_raceprobe'] += 1
-                    d3, _c3 = dev(r3, r1)
-                    if d3 > TOL['float32']:
-                        racy, r2, dvr, colr = True, r3, d3, _c3
-                        break
-            if racy:
-                what = 'tsc-race' if c['paste'] == 'TSC' else 'identical-calls-disagree'
-                problem(f'thread-count:{what}',
-                        f'{desc0}, positions(cells)={ps.cells_str()}: identical repeated calls with nthread={nth} disagree in {colr} by {dvr:.3g} of max; '
-                        f'{show(r2, r1, colr) if np.isfinite(dvr) else "non-finite"}; deviation from nthread=1: {dv1:.3g}')
-            elif not ok1:
-                fail('thread-count', f'nthread={nth} vs 1', r1, dv1, col1, ' (4 more identical calls agreed: deterministic)')
+            if not okr and st != 'race':
+                race('thread-count repeat', nth, r2, r1, dvr, colr, f'; deviation of the first from nthread=1: {dv1:.3g}')
 
         # cross spectrum of the field with itself == auto spectrum
-        if w0 is None:
-            variants = [('same-object', lambda p: (p, None)), ('copy', lambda p: (p.copy(), None))]
-        else:
-            variants = [('same-object', lambda p: (p, 'same')), ('copy', lambda p: (p.copy(), 'copy'))]
-        if ps.n >= 2 and len(c['sets']) > 4:
-            variants.append(('permuted-copy', None))
-        for vname, f in variants:
-            p1 = pos0.copy()
-            w1 = None if w0 is None else w0.copy()
-            if vname == 'permuted-copy':
+        def mkcross(vname):
+            def mk():
+                p1 = pos0.copy()
+                w1 = None if w0 is None else w0.copy()
+                if vname == 'same-object':
+                    return p1, w1, p1, w1
+                if vname == 'copy':
+                    return p1, w1, p1.copy(), (None if w1 is None else w1.copy())
                 order = ps.perms()[0][1]
-                p2 = pos0[order].copy()
-                w2 = None if w0 is None else w0[order].copy()
-            else:
-                p2, wm = f(p1)
-                w2 = None if w1 is None else (w1 if wm == 'same' else w1.copy())
-            r, ok, dv, col = one('cross', vname, p1, w1, 1, pos2=p2, w2=w2)
+                return p1, w1, pos0[order].copy(), (None if w0 is None else w0[order].copy())
+            return mk
+        variants = ['same-object', 'copy'] + (['permuted-copy'] if ps.n >= 2 and len(c['sets']) > 4 else [])
+        for vname in variants:
+            r, st, dv, col = one('cross', vname, mkcross(vname), 1)
             cnt['calls_cross'] += 1
             if r.meta.get('N_pos2') != ps.n:
                 problem('exact:meta', f"{desc0}: meta N_pos2={r.meta.get('N_pos2')}")
-            if not ok:
+            if st == 'fail':
                 fail('cross', f'pos2=pos ({vname})', r, dv, col)
+        base = B[0]
 
         if sample is None and ps.n == 7:
             sample = dict(config=key, particle_set=sname, positions_in_cells=ps.cells_str(), weights=None if w0 is None else w0.tolist(),
